@@ -172,9 +172,31 @@ def run_suite(pid, suite, tier, seed, fuzzing=False):
     if fuzzing:
         os.replace(impl, f"{wd}/{tag}.impl"); impl = f"{wd}/{tag}.impl"
         model = f"{wd}/{tag}.model"
-    rc, out, _ = sh([DRIVER, cases, model, model + ".spec"] + (["fuzzing"] if fuzzing else []), timeout=7200)
-    if rc != 0:
-        raise RuntimeError(f"driver failed on suite {suite}: {out[-2000:]}")
+    # shard the model run over the cores
+    lines = open(cases).read().split("\n")
+    if lines and lines[-1] == "":
+        lines.pop()
+    nsh = max(1, min(16, len(lines) // 8))
+    procs = []
+    for k in range(nsh):
+        part = lines[k::nsh]
+        cf = f"{wd}/{tag}.shard{k}.cases"
+        open(cf, "w").write("\n".join(part) + ("\n" if part else ""))
+        procs.append((k, subprocess.Popen([DRIVER, cf, f"{wd}/{tag}.shard{k}.model", f"{wd}/{tag}.shard{k}.spec"] + (["fuzzing"] if fuzzing else []),
+                                          stdout=subprocess.PIPE, stderr=subprocess.STDOUT)))
+    for k, p in procs:
+        out, _ = p.communicate(timeout=7200)
+        if p.returncode != 0:
+            raise RuntimeError(f"driver failed on suite {suite} shard {k}: {out.decode()[-2000:]}")
+    parts_m = [open(f"{wd}/{tag}.shard{k}.model").read().split("\n") for k in range(nsh)]
+    parts_s = [open(f"{wd}/{tag}.shard{k}.spec").read().split("\n") for k in range(nsh)]
+    with open(model, "w") as fm, open(model + ".spec", "w") as fs:
+        for i in range(len(lines)):
+            fm.write(parts_m[i % nsh][i // nsh] + "\n")
+            fs.write(parts_s[i % nsh][i // nsh] + "\n")
+    for k in range(nsh):
+        for ext in ("cases", "model", "spec"):
+            os.remove(f"{wd}/{tag}.shard{k}.{ext}")
     return cases, impl, model
 
 
